@@ -59,7 +59,7 @@ from liquid2.exceptions import TemplateInheritanceError
 HUGE_OUT = 10**12
 HUGE_NS = 10**15
 MAX_DEPTH = 4
-WORK_BOUND = 800  # static bound on loop body executions of one render
+WORK_BOUND = 500  # static bound on loop body executions of one render
 
 LOOP_CONSTRUCTS = ("for", "tablerow", "render-for", "include-for")
 OUTER_FLAGS = {"render-for": "render-for-outer", "include-for": "include-for-outer", "tablerow": "tablerow-outer"}
@@ -438,7 +438,7 @@ class _Gen:
             return [{"t": "assign", "name": f"n{self.i(1, 3)}", "e": ["int", self.i(0, 10**6)]}]
         if kind == "capture":
             name = f"c{self.nid()}"
-            body = self.block(depth, scope, {**fl, "can_block": False, "tr_direct": False}, blank=False)
+            body = self.block(depth, scope, {**fl, "can_block": False}, blank=False)
             self.caps.append(name)
             out = [{"t": "capture", "name": name, "body": body}]
             if not blank and self.i(0, 2):
@@ -449,7 +449,7 @@ class _Gen:
             if fl.get("forloop"):
                 conds += [_path("forloop", "first"), _path("forloop", "last")]
             return [{"t": "if", "cond": self.pick(conds),
-                     "body": self.block(depth, scope, {**fl, "tr_direct": False}, blank)}]
+                     "body": self.block(depth, scope, {**fl}, blank)}]
         if kind == "break":
             return [{"t": "if", "cond": _path("tick", f"q{self.nid()}_{self.i(1, 3)}"),
                      "body": [{"t": self.pick(["break", "continue"])}]}]
@@ -511,11 +511,7 @@ class _Gen:
         if blank:
             constructs = ["for"]
         else:
-            constructs = ["for", "for", "render-for"]
-            if not fl.get("tr_direct"):
-                # `{% tablerow %}` directly inside a tablerow body does not parse: TablerowTag passes
-                # end=("endtablerow") - a str, not a tuple - so any tag whose name is a substring ends the block
-                constructs.append("tablerow")
+            constructs = ["for", "for", "render-for", "tablerow"]
             if not fl.get("iso"):
                 constructs.append("include-for")
         c = self.pick(constructs)
@@ -539,7 +535,7 @@ class _Gen:
         if c in ("for", "tablerow"):
             inner_blank = blank or (c == "for" and self.i(0, 5) == 0)
             body = [_btick(lid), *self.block(depth + 1, inner_scope,
-                                             {**fl, "forloop": c == "for", "loopctx": c, "tr_direct": c == "tablerow",
+                                             {**fl, "forloop": c == "for", "loopctx": c,
                                               "can_block": fl.get("can_block") and not inner_blank},
                                              inner_blank)]
             stmt = {"t": c, "var": var, "iter": it, "body": body, "lid": lid}
@@ -804,7 +800,7 @@ class C06(Prop):
         "programs from a dedicated generator: loop nests of depth <= 4 built from for / tablerow / render-for / "
         "include-for crossing render, include, macro call, capture, blank blocks and block / block.super of a 2-3 "
         "level extends chain, literal text with CR, CRLF, LF and multi-byte characters, data sequences of length "
-        "0-12; limits enumerated at O,W (output) I,P (loops) S_hard,S_soft (namespace) -1/0/+1 and depth 2,5,30; "
+        "0-12; limits enumerated at O,W (output) I,P (loops) S_hard,S_soft (namespace) -1/0/+1 and depth 2,5 (30, the default, is the measured run); "
         "plus every digraph on <= 3 templates (and drawn 4-node digraphs) x 5 edge realisations x every start node "
         "x depth 2,5,30. A program case is non-trivial when the unrestricted render succeeds and runs a nest of >= 2 "
         "loops or writes through >= 2 limited buffers (capture / super) or executes a partial; a graph case when a "
@@ -831,7 +827,7 @@ class C06(Prop):
         _install_buffer_hook()
 
     def n_random(self, tier: str) -> int:
-        return 5600 if tier == "quick" else 80000
+        return 4400 if tier == "quick" else 80000
 
     def strategy(self, tier: str, disabled: frozenset[str]):
         return st.one_of(program_case(), program_case(), program_case(), program_case(), program_case(),
@@ -1064,7 +1060,7 @@ class C06(Prop):
 
         # ---- context depth limit (acyclic program: success or ContextDepthError, same text)
         if "depth" in families:
-            for lim in (2, 5, 30):
+            for lim in (2, 5):  # 30 is the default: that is the measured run itself
                 r = self._run(main_src, templates, case, {"context_depth_limit": lim})
                 res.evaluations += 1
                 where = f"context_depth_limit={lim}"
@@ -1072,8 +1068,7 @@ class C06(Prop):
                     if r["out"] != out0:
                         res.fail("depth", self._diff_bucket("depth", r["out"], out0), f"{where}; {ctxt}")
                 elif r["status"] == "err" and isinstance(r["err"], ContextDepthError):
-                    if lim == 30:
-                        res.fail("depth", "depth:spurious-error", f"{where}: {r['err']!r} (the default limit); {ctxt}")
+                    res.labels.append(f"depth-error@{lim}")
                 else:
                     res.fail("depth", f"depth:unexpected-error:{type(r['err']).__name__}", f"{where}: {r['err']!r}; {ctxt}")
 
